@@ -89,7 +89,9 @@ impl Peer {
     fn scs(&mut self, n: u32) -> Vec<u8> { match self.ser.set_max_chunk_size(n, RtmpTimestamp::new(0)) { Ok(p) => p.bytes, Err(e) => witness(format!("peer-side set_max_chunk_size({}) refused: {}", n, e)) } }
     fn wack(&mut self, w: u32) -> Vec<u8> { self.raw(5, 0, 0, w.to_be_bytes().to_vec()) }
     fn ack(&mut self, n: u32) -> Vec<u8> { self.raw(3, 0, 0, n.to_be_bytes().to_vec()) }
-    fn spb(&mut self, n: u32) -> Vec<u8> { let mut b = n.to_be_bytes().to_vec(); b.push(2); self.raw(6, 0, 0, b) }
+    fn spb(&mut self, n: u32) -> Vec<u8> { self.spb_t(n, 2) }
+    fn spb_t(&mut self, n: u32, limit_type: u8) -> Vec<u8> { let mut b = n.to_be_bytes().to_vec(); b.push(limit_type); self.raw(6, 0, 0, b) }   // 0 hard, 1 soft, 2 dynamic
+    fn abort(&mut self, csid: u32) -> Vec<u8> { self.raw(2, 0, 0, csid.to_be_bytes().to_vec()) }
     fn uc(&mut self, code: u16, fields: &[u32]) -> Vec<u8> { let mut b = code.to_be_bytes().to_vec(); for f in fields { b.extend_from_slice(&f.to_be_bytes()); } self.raw(4, 0, 0, b) }
     fn ping(&mut self, ts: u32) -> Vec<u8> { self.uc(6, &[ts]) }
     fn audio(&mut self, msid: u32, ts: u32, d: Vec<u8>) -> Vec<u8> { self.raw(8, ts, msid, d) }
@@ -390,6 +392,8 @@ fn mode_c15(seed: u64) {
         let mut s3 = p.data(&[s("@setDataFrame"), s("onMetaData"), meta_obj()], 0, 1);
         media_run(&mut p, 1, &mut s3);
         s3.extend(p.ping(0x01020304));
+        s3.extend(p.spb_t(500_000, vi as u8 % 3)); s3.extend(p.abort(9)); s3.extend(p.uc(3, &[1, 3000]));   // messages a server has nothing to do for
+        s3.extend(p.audio(1, 600, payload(40, 7)));
         s3.extend(p.audio(2, 5, payload(10, 1)));          // not a publishing stream: ignored
         s3.extend(p.ack(1234));
         s3.extend(p.raw(0x55, 9, 0, payload(33, 3)));      // unknown type: reported as unhandleable
@@ -447,7 +451,7 @@ fn mode_c15(seed: u64) {
             media_run(&mut p, 1, &mut s2);
             s2.extend(p.audio(2, 7, payload(10, 1)));                            // not the active stream: ignored
             s2.extend(p.data(&[s("onMetaData"), meta_obj()], 0, 2));
-            s2.extend(p.ping(0x01020304)); s2.extend(p.ack(5000)); s2.extend(p.uc(1, &[1]));
+            s2.extend(p.ping(0x01020304)); s2.extend(p.ack(5000)); s2.extend(p.uc(1, &[1])); s2.extend(p.abort(4)); s2.extend(p.spb_t(1000, 0)); s2.extend(p.video(1, 700, payload(9, 9)));
             s2.extend(p.cmd("_error", 9.0, A::Null, &[A::N(3.0)], 0));        // unknown transaction
         }
         check_partitions(&format!("c/client variant {} connect result, createStream result, {} (peer chunk size {}{})", vi, if publish { "Publish.Start, ping, ack" } else { "Play.Start, metadata, media 0/1/200/5000, ping" }, if peer_cs == 0 { 128 } else { peer_cs }, if with_ack { ", acknowledgement window 300" } else { "" }),
@@ -476,7 +480,8 @@ fn mode_c15(seed: u64) {
         for k in 0..12 {
             let n = rng.pick(&[0usize, 1, 2, 127, 128, 129, 300]);
             t = t.wrapping_add(rng.pick(&[0u32, 1, 15, 16, 0xFFFFFF]));
-            match rng.below(8) {
+            match rng.below(11) {
+                8 => s3.extend(p.abort(rng.below(7) as u32)), 9 => { let lt = rng.below(3) as u8; s3.extend(p.spb_t(rng.next() as u32, lt)) } 10 => s3.extend(p.ack(rng.next() as u32)),
                 0 | 1 => s3.extend(p.audio(1, t, payload(n, k))), 2 | 3 => s3.extend(p.video(1, t, payload(n, k))),
                 4 => s3.extend(p.ping(t)), 5 => s3.extend(p.data(&[s("@setDataFrame"), s("onMetaData"), meta_obj()], t, 1)),
                 6 => { let c = rng.pick(&[1u32, 64, 128, 200]); s3.extend(p.scs(c)); }
@@ -515,7 +520,9 @@ fn pad_about(p: &mut Peer, n: usize, pings: bool, rng: &mut Rng, out: &mut Vec<u
     let start = out.len();
     while out.len() - start < n {
         *k = k.wrapping_add(1);
-        match rng.below(if pings { 5 } else { 4 }) {
+        match rng.below(if pings { 7 } else { 6 }) {
+            4 => { let lt = rng.below(3) as u8; out.extend(p.spb_t(rng.pick(&[1u32, 2, 7, 50, 2_500_000]), lt)) }   // a bandwidth limit is not an acknowledgement window
+            5 => match rng.below(4) { 0 => out.extend(p.uc(0, &[1])), 1 => out.extend(p.uc(1, &[1])), 2 => out.extend(p.uc(3, &[1, 2000])), _ => out.extend(p.uc(7, &[5])) },
             0 => out.extend(p.ack(rng.next() as u32)),
             1 => out.extend(p.raw(0x55, *k as u32, 0, payload(rng.pick(&[0usize, 1, 30, 127, 128, 129, 300]), *k))),
             2 => out.extend(p.raw(0x56, 0, 1, payload(rng.pick(&[5usize, 64]), *k))),
@@ -1013,6 +1020,26 @@ fn c09_scripted() {
         x.expect_media(sid, None);
         let r = x.ping(42); if r.out.len() != 1 || r.out[0].ping_response() != Some(42) || !r.ev.is_empty() { x.bad(format!("ping request(42) {}: expected one ping response carrying 42, got {}", what, r.show())); }
     }
+    // 1b. several connection requests: the application name that tags later events is the one of the ACCEPTED request
+    {
+        let mut x = Srv::new(); let mut sids = HashSet::new();
+        let r = x.connect("alpha", 1.0); let ida = x.one_request(&r, "connect(alpha)");
+        let r = x.connect("beta", 2.0); let idb = x.one_request(&r, "connect(beta)");
+        if ida == idb { x.bad(format!("two pending connection requests share the id {}", ida)); }
+        match x.accept(ida) { Ok(sr) => if sr.out.iter().filter(|o| matches!(o.cmd("_result"), Some((t, _, _)) if t == 1.0)).count() != 1 { x.bad(format!("accepting connect(alpha): expected a _result under transaction id 1, got {}", sr.show())) }, Err(e) => x.bad(format!("accept_request({}) failed: {}", ida, e)) }
+        let sid = x.new_stream(3.0, &mut sids);
+        let r = x.publish(sid, "k1"); let q = x.one_request(&r, "publish");
+        if !matches!(&r.ev[0], ServerSessionEvent::PublishStreamRequested { app_name, .. } if app_name == "alpha") { x.bad(format!("connect(alpha) was accepted, connect(beta) is still pending: the publish request must be tagged with alpha, got {}", r.show())); }
+        if let Err(e) = x.accept(q) { x.bad(format!("accept_request({}) failed: {}", q, e)); }
+        x.expect_media(sid, Some(("alpha", "k1")));
+        match x.reject(idb) { Ok(sr) => if sr.out.len() != 1 || sr.out[0].cmd("_error").is_none() { x.bad(format!("rejecting connect(beta): {}", sr.show())) }, Err(e) => x.bad(format!("reject_request({}) failed: {}", idb, e)) }
+        x.expect_media(sid, Some(("alpha", "k1")));
+        let r = x.connect("gamma", 4.0); let idc = x.one_request(&r, "connect(gamma) while connected"); if idc == ida || idc == idb || idc == q { x.bad(format!("connection request id {} reused", idc)); }
+        x.expect_media(sid, Some(("alpha", "k1")));       // gamma was only requested, never accepted
+        let r = x.reject(idc); if r.is_err() { x.bad("reject_request of the pending connect(gamma) failed".into()); }
+        x.expect_media(sid, Some(("alpha", "k1")));
+        let r = x.delete(sid); if !finished(&r, true, "alpha", "k1") { x.bad(format!("deleteStream: expected PublishStreamFinished(alpha, k1), got {}", r.show())); }
+    }
     // 2. ids: fresh, accepted or rejected exactly once, any other id refused without side effects
     {
         let (mut x, mut ids) = Srv::connected("live");
@@ -1076,7 +1103,7 @@ enum St { Created, Publishing(String), Playing(String) }
 enum Rq { Conn(String, f64), Pub(u32, String), Play(u32, String) }
 fn c09_walk(rng: &mut Rng, steps: usize) {
     let mut x = Srv::new();
-    let mut app: Option<String> = None; let mut conn_pending = false;
+    let mut app: Option<String> = None;
     let mut pending: Vec<(u32, Rq)> = vec![]; let mut consumed: Vec<u32> = vec![]; let mut ids: HashSet<u32> = HashSet::new();
     let mut streams: Vec<(u32, St)> = vec![]; let mut sids: HashSet<u32> = HashSet::new(); let mut tx = 10.0;
     if rng.below(2) == 0 {   // half of the histories start with an accepted connection, so that the later states get visited often
@@ -1088,11 +1115,11 @@ fn c09_walk(rng: &mut Rng, steps: usize) {
         tx += 1.0;
         let busy = |sid: u32, pending: &Vec<(u32, Rq)>| pending.iter().any(|(_, r)| matches!(r, Rq::Pub(s, _) | Rq::Play(s, _) if *s == sid));
         match rng.below(14) {
-            0 => if app.is_none() && !conn_pending {
-                let name = rng.pick(&["live", "app2"]); let r = x.connect(name, tx); let id = x.one_request(&r, "connect");
+            0 => if pending.iter().filter(|p| matches!(p.1, Rq::Conn(..))).count() < 3 {
+                let name = rng.pick(&["live", "app2", "third"]); let r = x.connect(name, tx); let id = x.one_request(&r, "connect");
                 if !matches!(&r.ev[0], ServerSessionEvent::ConnectionRequested { app_name, .. } if app_name == name) { x.bad(format!("connect({}): wrong event {}", name, r.show())); }
                 if !ids.insert(id) { x.bad(format!("the connection request got id {} which was issued before", id)); }
-                pending.push((id, Rq::Conn(name.to_string(), tx))); conn_pending = true;
+                pending.push((id, Rq::Conn(name.to_string(), tx)));
             },
             1 => { let sid = x.new_stream(tx, &mut sids); streams.push((sid, St::Created)); }
             2 | 3 => {
@@ -1113,17 +1140,18 @@ fn c09_walk(rng: &mut Rng, steps: usize) {
                 }
             }
             4 | 5 | 6 => {
-                let accept = rng.below(3) != 0;
+                let mut accept = rng.below(3) != 0;
                 let sel = rng.below(10);
                 if sel < 6 && !pending.is_empty() {
                     let (id, rq) = pending.remove(rng.below(pending.len() as u64) as usize);
+                    if app.is_some() && matches!(rq, Rq::Conn(..)) { accept = false; }   // what accepting a second connection means is not settled by the statement
                     let r = if accept { x.accept(id) } else { x.reject(id) };
                     let sr = match r { Ok(sr) => sr, Err(e) => x.bad(format!("{}_request({}) of the pending request {:?} failed: {}", if accept { "accept" } else { "reject" }, id, rq, e)) };
                     if !sr.ev.is_empty() { x.bad(format!("answering request {} raised events: {}", id, sr.show())); }
                     consumed.push(id);
                     match (&rq, accept) {
-                        (Rq::Conn(name, t), true) => { if sr.out.iter().filter(|o| matches!(o.cmd("_result"), Some((tt, _, _)) if tt == *t)).count() != 1 { x.bad(format!("accepted connection request: expected a _result under transaction id {}, got {}", t, sr.show())); } app = Some(name.clone()); conn_pending = false; }
-                        (Rq::Conn(_, _), false) => { if sr.out.len() != 1 || sr.out[0].cmd("_error").is_none() { x.bad(format!("rejected connection request: expected one _error, got {}", sr.show())); } conn_pending = false; }
+                        (Rq::Conn(name, t), true) => { if sr.out.iter().filter(|o| matches!(o.cmd("_result"), Some((tt, _, _)) if tt == *t)).count() != 1 { x.bad(format!("accepted connection request: expected a _result under transaction id {}, got {}", t, sr.show())); } app = Some(name.clone()); }
+                        (Rq::Conn(_, _), false) => { if sr.out.len() != 1 || sr.out[0].cmd("_error").is_none() { x.bad(format!("rejected connection request: expected one _error, got {}", sr.show())); } }
                         (Rq::Pub(sid, key), true) => { if sr.out.is_empty() { x.bad("accepted publish request produced no response".into()); } for st in streams.iter_mut() { if st.0 == *sid { st.1 = St::Publishing(key.clone()); } } }
                         (Rq::Play(sid, key), true) => { if sr.out.is_empty() { x.bad("accepted play request produced no response".into()); } for st in streams.iter_mut() { if st.0 == *sid { st.1 = St::Playing(key.clone()); } } }
                         (_, false) => if sr.out.len() != 1 || sr.out[0].cmd("_error").is_none() { x.bad(format!("rejected request: expected one _error, got {}", sr.show())); },
